@@ -12,6 +12,7 @@ import Drivers.Dist
 import Drivers.MeshOps
 import Drivers.Cavity
 import Drivers.Guards
+import Drivers.Metric
 
 /-! `refdrv <driver> [args]` : dispatch to a line-protocol driver. One match arm per driver, on one line. -/
 
@@ -29,6 +30,7 @@ def main (args : List String) : IO UInt32 := do
   | "meshops" :: rest => Drivers.MeshOps.run rest
   | "cavity" :: rest => Drivers.Cavity.run rest
   | "guards" :: rest => Drivers.Guards.run rest
+  | "metric" :: rest => Drivers.Metric.run rest
   | _ =>
     IO.eprintln s!"refdrv: unknown driver {args}"
     return 2
